@@ -54,6 +54,8 @@ def gen_world(seed, tier):
         o = {"g": gi, "op": op}
         if op in ("reach", "reaching"):
             o["node"] = rng.choice(g["nodes"] + ["@source", "@sink"])
+        elif op == "maxval":
+            o["attr"] = rng.choice(["flow", "flow", "cap", "missing"])
         elif op == "scc_edge":
             e = rng.choice(g["edges"])
             o["edge"] = [e[0], e[1]]
@@ -126,6 +128,8 @@ def execute(spec):
         objs = []
         for g in world["graphs"]:
             G = gen.to_nx(g, "flow")
+            for ei, (u_, v_, _f) in enumerate(g["edges"]):
+                G[u_][v_]["cap"] = (ei * 7 + 3) % 11      # a second, unrelated weight attribute
             dag = gen.is_acyclic(g)
             SD = fp.stDiGraph(G)
             ST = fp.stDAG(G) if dag else None
@@ -161,9 +165,10 @@ def execute(spec):
                         V("reachability_differs", {"node": node, "got": sorted(got), "expected": sorted(exp)}, op)
                     remembered.append((got, set(got), op))
                 elif kind == "maxval":
-                    got = SD.compute_edge_max_reachable_value("flow")
+                    attr = op.get("attr", "flow")
+                    got = SD.compute_edge_max_reachable_value(attr)
                     for (u, v) in o["edges"]:
-                        w = lambda a, b: float(SD[a][b].get("flow", 0.0))
+                        w = lambda a, b: float(SD[a][b].get(attr, 0.0))
                         best = w(u, v)
                         for (a, b) in o["edges"]:
                             if a in o["reach"][v] or b in o["rreach"][u]:
